@@ -1,0 +1,33 @@
+//go:build verif
+
+// Contracts for the govc verifier (/verif).  Comment-only: this file declares nothing
+// and is compiled only with -tags verif.  Syntax: see /verif/DESIGN.md section 2.1.
+
+package go_clipper2
+
+//@ spec cross(a, b, c Point64) int64 = (b.X-a.X)*(c.Y-b.Y) - (b.Y-a.Y)*(c.X-b.X)
+//@ spec dom(p Point64, k int) bool = absI(p.X) <= pow2(k) && absI(p.Y) <= pow2(k)
+//@ spec sgn(x int64) int = ite(x < 0, -1, ite(x > 0, 1, 0))
+
+//@ func triSign
+//@   props C14 C15
+//@   ensures [sign] result == sgn(x)
+
+//@ func multiplyUInt64
+//@   props C14 C13
+//@   ensures [exact128] mathInt(result.Hi64)*pow2(64) + mathInt(result.Lo64) == mathInt(a)*mathInt(b)
+
+//@ func isCollinear
+//@   props C14 C15
+//@   requires dom(pt1,29) && dom(sharedPt,29) && dom(pt2,29)
+//@   ensures [exact] result == (cross(pt1, sharedPt, pt2) == 0)
+
+//@ func CrossProduct
+//@   props C14
+//@   requires dom(pt1,29) && dom(pt2,29) && dom(pt3,29)
+//@   ensures [exact] result == toReal(cross(pt1, pt2, pt3))
+
+//@ func getBounds
+//@   props C14
+//@   loop 0 invariant forall(k, 0, _i, result.left <= path[k].X && path[k].X <= result.right && result.top <= path[k].Y && path[k].Y <= result.bottom)
+//@   ensures [contains] forall(k, 0, len(path), result.left <= path[k].X && path[k].X <= result.right && result.top <= path[k].Y && path[k].Y <= result.bottom)
